@@ -87,6 +87,8 @@ func clampIdiom(c *eng.Ctx, fn *ssa.Function, min int) {
 
 func runC11(c *eng.Ctx) {
 	p := c.P
+	memoryIndexScannedUnderLock(c)
+	compressBufferIsOwned(c)
 
 	// ---- 0. the families a query reads: no family inside the query range is passed over (F49, rule shared with C13) ------
 	calcFamilyInsideItsSegment(c)
